@@ -3,19 +3,41 @@ import json
 import os
 import vlib
 
-PROPS = ['Rangers.Props.C07']
+PROPS = ['Rangers.Props.C07', 'Rangers.Props.C07Facts']
 DRIVERS = ['C07']
 META = dict(
     level='proof',
     technique='Lean 4 theorems about an executable model of VerifyTransaction (crypto primitives as parameters) '
               '+ differential correspondence against the real TxPool.VerifyTransaction / eth_tx code with crypto oracle fields',
-    level_text='proof', level_note='',
+    level_text='proof',
+    level_note='35 Lean theorems about the executable model of VerifyTransaction that the driver runs; crypto '
+               'primitives are parameters (soundness ends in explicit collision / second-signature witnesses); '
+               'two clauses are false of the code and proved partial with counterexamples (unprotected v=27/28 '
+               'payloads, recovery-id alias of Sign) and recorded as known findings; one defect fixed '
+               '(non-canonical payload).',
     trusted_base=['Lean 4 kernel', 'Go harness harness/cmd/c07 (oracle tokens, generators)',
                   'SHA-256, Keccak-256, secp256k1 recover/verify (cgo) are parameters of the model, sampled only'],
-    assumptions=[],
+    assumptions=['the model equals the code only as far as the correspondence run and the T-gen shape facts establish',
+                 'SHA-256 / Keccak-256 collision resistance and ECDSA unforgeability are never assumed: they appear as '
+                 'disjuncts (collision witness, second valid signature for the same address)',
+                 'libsecp256k1 rejects high-s signatures in verify (sampled every run, not proved)',
+                 'hooks/c07 fix commit (canonical payload check in verifyETHTx) is applied to the tree under check'],
     rule='distinct vt/conv op lines sent to both implementation and model whose model answer is not bad-op',
-    explanation='',
+    explanation='native: accepted <=> chain id is the chain\'s, hash = SHA-256 of the 8-field concatenation, Sign recovers a '
+                'verifying key whose address is Source; any single hashed-field change alters the hashed bytes (proved), so an '
+                'accepted mutant is a SHA-256 collision; hash/chain-id changes are rejected outright. ETH: accepted <=> canonical '
+                'payload, EIP-155 signer of this chain recovers the sender, all declared fields equal the derived ones; payload '
+                'bit flips need a Keccak collision; honest wrapped transactions are accepted (RLP/hex round trip proved).',
 )
+
+
+def gen(ctx):
+    """T-gen: re-extract the shape of the authenticity code (go/ast) into Generated/C07Facts.lean."""
+    rc, so, se = vlib.go_run_gen(ctx, 'c07facts', ['repo=' + ctx.repo])
+    if rc != 0 or 'namespace Rangers.Generated.C07' not in so:
+        return dict(ok=False, error='c07facts failed: ' + (se or so)[-800:])
+    changed = vlib.write_if_changed(os.path.join(vlib.LEAN, 'Rangers', 'Generated', 'C07Facts.lean'), so)
+    return dict(ok=True, changed=changed, bytes=len(so))
 
 
 def _n(ctx):
